@@ -3,6 +3,10 @@ CONSTANTS
   Ds = {1}
   MaxClock = 1000
   W0 = 5
+  W0B = 9000000
+  Ambients = {"A"}
+  Threads = {"main"}
+  Resolution = "captured"
   Depth = 8
 SPECIFICATION RSpec
 INVARIANT Emit
